@@ -88,12 +88,36 @@ def diagnostic_nodes(f):
     return out
 
 
-def NI1_sign_independence(rep, flow, root_fq="stabilizer_circuits.get_readout_circuit"):
-    rep.rule("NI1", "no expression in the over-approximated call closure of the readout API reads the stabilizer's sign field (directly, via getattr/vars, or through a method that reads it); diagnostics sinks excluded", floor=30)
+def class_id_roots(flow, fq="stabilizer_circuits.get_readout_circuit"):
+    """the functions whose result is used as class id in the table accessor call (today: the classifier)"""
+    from .rules_flow import class_id_symbols
+    roots = set()
+
+    def calls(k):
+        if isinstance(k, tuple) and k:
+            if k[0] in ("call", "mcall") and len(k) > 1 and isinstance(k[1], str):
+                roots.add(k[1])
+            for x in k[1:]:
+                calls(x)
+    for k in class_id_symbols(flow, fq):
+        calls(k)
+    out = []
+    for r in sorted(roots):
+        try:
+            out.append(flow.prog.func(r))
+        except AnalysisError:
+            pass
+    return out
+
+
+def NI1_sign_independence(rep, flow, root_fq="stabilizer_circuits.get_readout_circuit", roots=None, what="the readout API"):
+    rep.rule("NI1", f"no expression in the over-approximated call closure of {what} reads the stabilizer's sign field (directly, via getattr/vars, or through a method that reads it); diagnostics sinks excluded", floor=30 if roots is None else 10)
     prog = flow.prog
     fields, stab = sign_fields(prog)
     root = prog.func(root_fq)
-    clo = prog.closure([root], may=True, extra_edges=implicit_edges(prog, stab))
+    if roots is not None and not roots:
+        raise AnalysisError("cannot identify the function that computes the class id (no call feeds the accessor's class-id argument)")
+    clo = prog.closure(list(roots) if roots is not None else [root], may=True, extra_edges=implicit_edges(prog, stab))
     rep.analysed["NI1 sign field(s)"] = sorted(fields)
     rep.analysed["NI1 closure size (functions, MAY graph)"] = len(clo)
     for f in sorted(clo, key=lambda g: g.fq):
@@ -122,7 +146,7 @@ def NI1_sign_independence(rep, flow, root_fq="stabilizer_circuits.get_readout_ci
                 real.append(n)
         if real:
             for n in real:
-                rep.finding("NI1", f"{f.fq}:{pyfacts.norm_stmt(n)}", f"{pyfacts.where(f, n)}: reads the sign field ({pyfacts.norm_stmt(n)}) inside the call closure of {root.qualname}: the readout circuit may depend on the signs")
+                rep.finding("NI1", f"{f.fq}:{pyfacts.norm_stmt(n)}", f"{pyfacts.where(f, n)}: reads the sign field ({pyfacts.norm_stmt(n)}) inside the call closure of {what}: the result may depend on the signs")
         else:
             rep.ok("NI1", 1, nontrivial=f.fq, sample=f"{f.fq}: no read of {sorted(fields)}")
 
